@@ -66,6 +66,10 @@ struct StructurePrinter<'a, 'b, S> {
     num_items: usize,
     first: bool,
     delegated: bool,
+    // Set for the printer of the only item of a record with attributes (which is written without braces): if that
+    // item is itself a record it needs braces of its own, or it would be read back as the body of the outer record.
+    single_item: bool,
+    close_single_item: bool,
 }
 
 impl<'a, 'b, S: Debug> Debug for StructurePrinter<'a, 'b, S> {
@@ -90,12 +94,19 @@ impl<'a, 'b, S> StructurePrinter<'a, 'b, S> {
             num_items: 0,
             first: true,
             delegated: false,
+            single_item: false,
+            close_single_item: false,
             strategy,
         }
     }
 
     fn delegate(mut self) -> Self {
         self.delegated = true;
+        self
+    }
+
+    fn single_item(mut self) -> Self {
+        self.single_item = true;
         self
     }
 }
@@ -248,7 +259,12 @@ where
     type Header = Self;
     type Body = Self;
 
-    fn record(self, _num_attrs: usize) -> Result<Self::Header, Self::Error> {
+    fn record(mut self, _num_attrs: usize) -> Result<Self::Header, Self::Error> {
+        if self.single_item {
+            self.single_item = false;
+            self.close_single_item = true;
+            self.fmt.write_str("{")?;
+        }
         Ok(self)
     }
 }
@@ -347,9 +363,11 @@ where
             strategy,
             ..
         } = &mut self;
+        let mut single_item = false;
         if *has_attr && !*brace_written {
             if *num_items == 1 {
                 fmt.write_str(" ")?;
+                single_item = true;
             } else {
                 strategy.attr_padding().fmt(fmt)?;
                 fmt.write_str("{")?;
@@ -364,7 +382,11 @@ where
             strategy.item_padding(*brace_written).fmt(fmt)?;
         }
         let printer = StructurePrinter::new(fmt, *strategy);
-        value.write_with(printer)?;
+        if single_item {
+            value.write_with(printer.single_item())?;
+        } else {
+            value.write_with(printer)?;
+        }
         Ok(self)
     }
 
@@ -422,12 +444,16 @@ where
             brace_written,
             first,
             mut strategy,
+            close_single_item,
             ..
         } = self;
         if brace_written {
             if !first {
                 strategy.end_block().fmt(fmt)?;
             }
+            fmt.write_str("}")?;
+        }
+        if close_single_item {
             fmt.write_str("}")?;
         }
         Ok(())
